@@ -88,6 +88,8 @@ func elem(shape string, j int, c *ctr) jl.Node {
 		return jl.Int(int64(50 + j))
 	case "str":
 		return jl.Str("t" + strconv.Itoa(j))
+	case "rkobj": // an element that has its own rk member: resolving `$.rk...` against the element gives another truth than against the root
+		return jl.Obj("a", jl.Int(int64(10+j)), "b", jl.Str("s"+strconv.Itoa(j)), "rk", jl.Arr(jl.Int(int64(100+j))))
 	case "scal": // the element itself is null / an int / a string / an object / an array (scripts on `@` and on a member of it)
 		switch j % 5 {
 		case 0:
@@ -332,6 +334,28 @@ func matrix(args []string) {
 				emit(3, []jl.Frag{jl.FRoot(), jl.FChild("p"), f}, jl.Obj("p", d, "q", jl.Int(9999)))
 				emit(2, []jl.Frag{jl.FRoot(), f, jl.FChild("b")}, d)
 				emit(3, []jl.Frag{jl.FRoot(), jl.FNth(-2), f, jl.FWild()}, jl.Arr(d, jl.Int(77)))
+			}
+		}
+	}
+	// `$`-rooted MULTI-valued operands (wildcard, union, slice, descent), on either side of ==, != and <: must be resolved against the root
+	{
+		rfs := []jl.Frag{jl.FWild(), jl.FUnion(0, 1), jl.FUnion(1, 5), jl.FSlice(0, 2, A), jl.FSlice(1, A, A), jl.FDesc()}
+		for _, rf := range rfs {
+			for _, cmp := range []string{"eq", "ne", "lt"} {
+				for _, sw := range []bool{false, true} {
+					f := jl.FFilterMR("a", cmp, sw, "rk", rf)
+					for _, ct := range []cont{{"arr", 1}, {"arr", 4}, {"obj", 3}} {
+						c := &ctr{n: 100}
+						d := mkCont(ct, "rkobj", c)
+						root := jl.Obj("p", d, "rk", jl.Arr(jl.Int(11), jl.Int(13), jl.Int(12)))
+						emit(3, []jl.Frag{jl.FRoot(), jl.FChild("p"), f}, root)
+						emit(3, []jl.Frag{jl.FRoot(), jl.FChild("p"), f, jl.FChild("b")}, root)
+						if cmp == "eq" {
+							emit(3, []jl.Frag{jl.FRoot(), jl.FChild("p"), f}, jl.Obj("p", d))                                // the root has no rk
+							emit(3, []jl.Frag{jl.FRoot(), jl.FChild("p"), f, jl.FWild()}, jl.Obj("p", d, "rk", jl.Arr(jl.Int(10)))) // one value only
+						}
+					}
+				}
 			}
 		}
 	}
